@@ -116,6 +116,12 @@ class Check:
             self._slow.append((round(part['_wall'], 1), part.get('_label')))
             self._slow = sorted(self._slow, reverse=True)[:5]
 
+    def expect(self, key, minimum):
+        """Vacuity guard for counters that depend only on the harness's own alphabets: a shortfall is a broken
+        check (HarnessError), never a VIOLATION."""
+        if self.counters.get(key, 0) < minimum:
+            raise HarnessError(f"{self.pid}: vacuity guard: counter {key}={self.counters.get(key, 0)} < {minimum}")
+
     # ---- finish --------------------------------------------------------------------------------
     def finish(self) -> int:
         findings = [f for f in load_findings() if f.get('property') == self.pid]
